@@ -3,6 +3,7 @@
 //! usage: e5_probes run <C11|C13|C14|C17> <n> <result.json>
 //!        e5_probes replay <PROP> <case.json>
 
+mod c08;
 mod c17;
 mod common;
 
@@ -153,14 +154,18 @@ fn run_c13(n: usize) -> Result<Value, String> {
     let ext = discover_externs()?;
     let dir = work_dir("c13");
     let histories = sample(&rhistory(), n, 0xC13);
-    let cases: Vec<C13Case> = histories.iter().flat_map(|h| (0..4u8).map(move |f| C13Case { history: h.clone(), fragsel: f })).collect();
+    let cases: Vec<C13Case> = histories
+        .iter()
+        .enumerate()
+        .flat_map(|(k, h)| (0..if k % 8 == 0 { 5u8 } else { 4u8 }).map(move |f| C13Case { history: h.clone(), fragsel: f }))
+        .collect();
     let results = parallel(cases.len(), env_threads(), |i| c13_check(&ext, &dir, &format!("p{}", i), &cases[i]));
     let mut out = Acc::default();
     for (i, r) in results.into_iter().enumerate() {
         match r {
             Ok(Some(classes)) => {
                 let nontrivial = classes.iter().any(|c| ["add_then_remove_before_close", "empty_variant", "removal_only_variant", "uninit_only_variant", "has_zst"].contains(c));
-                out.pass(&cases[i], nontrivial, &classes, &[["fragments_none", "fragments_clone", "fragments_serde", "fragments_clone_serde"][cases[i].fragsel as usize]]);
+                out.pass(&cases[i], nontrivial, &classes, &[["fragments_none", "fragments_clone", "fragments_serde", "fragments_clone_serde", "user_fragment_only"][cases[i].fragsel as usize]]);
             }
             Ok(None) => out.label("skipped_generator_panicked"),
             Err((sig, msg)) => {
@@ -293,6 +298,9 @@ pub struct C11Case {
     /// types that are not `Copy`); `None`: the type the history draws
     #[serde(default)]
     pub force: Option<u16>,
+    /// generate with `GeneratorConfig::new` and a user fragment only (no stock fragment)
+    #[serde(default)]
+    pub bare: bool,
 }
 
 fn c11_strategy() -> impl Strategy<Value = C11Case> {
@@ -313,8 +321,9 @@ fn c11_strategy() -> impl Strategy<Value = C11Case> {
         prop_oneof![Just(EntryKind::Override), Just(EntryKind::CopyDatum), Just(EntryKind::Dynamic), Just(EntryKind::NameOnly)],
         prop::bool::weighted(0.4),
         prop::option::weighted(0.5, any::<u16>()),
+        prop::bool::weighted(0.12),
     )
-        .prop_map(|(history, target, kind, entry, twin, force)| C11Case { history, target, kind, entry, twin, force })
+        .prop_map(|(history, target, kind, entry, twin, force, bare)| C11Case { history, target, kind, entry, twin, force, bare })
 }
 
 enum C11Outcome {
@@ -338,7 +347,9 @@ fn c11_check(ext: &Externs, dir: &std::path::Path, tag: &str, case: &C11Case) ->
         pool[pick(sel, pool.len())]
     });
     let mk = |apply: bool| Ext { perturb: Some((ordinal, case.kind, case.entry)), apply_perturbation: apply, markers: BTreeMap::new(), twin: case.twin, force_type, alias_paths: false };
-    let fragsel = case.history.fragsel;
+    // (the Copy requirement on may-be-uninitialised data is carried by the stock constructors)
+    let bare = case.bare && case.kind != PerturbKind::UninitNonCopy;
+    let fragsel = if bare { 4 } else { case.history.fragsel };
     let (control, control_text) = match module_text(&case.history, &mk(false), fragsel) {
         Some(x) => x,
         None => return C11Outcome::Skipped("skipped_generator_panicked"),
@@ -400,6 +411,9 @@ fn c11_check(ext: &Externs, dir: &std::path::Path, tag: &str, case: &C11Case) ->
         EntryKind::NameOnly => "entry_partial_override",
         EntryKind::Typed => "entry_typed",
     });
+    if bare {
+        classes.push("user_fragment_only");
+    }
     let first_variant = control.def.variants().next().map_or(false, |v| v.data().any(|d| datum_index(d) == pid));
     classes.push(if first_variant { "introduced_in_first_variant" } else { "introduced_in_later_variant" });
     let last_variant = control.def.variants().last().map_or(false, |v| v.data().any(|d| datum_index(d) == pid));
@@ -709,6 +723,7 @@ fn main() -> ExitCode {
             "C11" => run_c11(n),
             "C14" => run_c14(n),
             "C17" => c17::run_c17(n),
+            "C08" => c08::run_c08(n),
             _ => return ExitCode::from(2),
         };
         return match res {
@@ -747,6 +762,7 @@ fn main() -> ExitCode {
                 Err(e) => Err(("bad-replay-file".into(), e.to_string())),
             },
             "C17" => c17::replay(&case),
+            "C08" => c08::replay(&case),
             "C03" => match serde_json::from_value::<RHistory>(case) {
                 Ok(h) => c03_check(&ext, &dir, "r", &h).map(|_| ()),
                 Err(e) => Err(("bad-replay-file".into(), e.to_string())),
